@@ -187,36 +187,167 @@ Proof. rewrite gen_principals_allowed_is_model. apply principals_allowed_exact. 
 Theorem gen_principals_allowed_nodup L p : NoDup (gen_principals_allowed L p).
 Proof. rewrite gen_principals_allowed_is_model. apply principals_allowed_nodup. Qed.
 
-(* ---------- the public routes of pyramid/security.py *)
-Theorem has_permission_first_match given ctx ps p :
-  hp_granted (has_permission true given ctx ps p)
-  = spec_granted (match given with None => ctx | Some L => L end) ps p.
+(* ---------- the public routes of pyramid/security.py: regenerated = reference.  The scripts split on every
+   scrutinee (the optional context, the registry's flags, the view found) and then compute. *)
+Ltac entry_cases :=
+  repeat match goal with
+  | |- context [match ?x with _ => _ end] => is_var x; destruct x
+  | |- context [if ?b then _ else _] => destruct b eqn:?
+  | |- context [match ?f ?R with _ => _ end] => is_var R; destruct (f R) eqn:?
+  end.
+
+Theorem gen_legacy_permits_is_model L ps p : gen_legacy_permits L ps p = legacy_permits L ps p.
+Proof. unfold gen_legacy_permits, legacy_permits. apply gen_policy_permits_is_model. Qed.
+
+Theorem gen_has_permission_is_model R given ctx ps p :
+  gen_has_permission R given ctx ps p = has_permission R given ctx ps p.
 Proof.
-  unfold has_permission, hp_granted, legacy_permits, gen_policy_permits.
-  rewrite Verif.Proofs.C11_gen.gen_permits_is_model. apply permits_first_match.
+  unfold gen_has_permission, has_permission. entry_cases; rewrite ?gen_legacy_permits_is_model; reflexivity.
 Qed.
 
-Theorem has_permission_default_context policy ctx ps p :
-  has_permission policy None ctx ps p = has_permission policy (Some ctx) ctx ps p.
-Proof. reflexivity. Qed.
-
-Theorem has_permission_without_policy given ctx ps p :
-  has_permission false given ctx ps p = NoPolicyAllowed.
-Proof. reflexivity. Qed.
-
-Theorem sec_principals_allowed_consistent L p q :
-  wf_lineage L = true ->
-  In q (sec_principals_allowed true L p) ->
-  hp_granted (has_permission true None L [q; everyone] p) = true.
+Theorem gen_sec_principals_allowed_is_model R L p :
+  gen_sec_principals_allowed R L p = sec_principals_allowed R L p.
 Proof.
-  intros Hwf Hq. rewrite has_permission_first_match. rewrite <- permits_first_match.
-  unfold sec_principals_allowed, gen_policy_principals_allowed in Hq.
-  rewrite Verif.Proofs.C11_gen.gen_principals_allowed_is_model in Hq.
+  unfold gen_sec_principals_allowed, sec_principals_allowed.
+  entry_cases; rewrite ?gen_policy_principals_allowed_is_model; reflexivity.
+Qed.
+
+Lemma view_permitted_ext f g v : (forall q, f q = g q) -> view_permitted f v = view_permitted g v.
+Proof.
+  intros H. destruct v as [q|subs]; simpl; [rewrite H; reflexivity|].
+  destruct (find (fun s : bool * option text => fst s) subs) as [[b [q|]]|]; try reflexivity. rewrite H. reflexivity.
+Qed.
+
+Theorem gen_view_execution_permitted_is_model R L ps :
+  gen_view_execution_permitted R L ps = view_execution_permitted R L ps.
+Proof.
+  unfold gen_view_execution_permitted, view_execution_permitted.
+  entry_cases; try reflexivity; apply view_permitted_ext; intros q; apply gen_legacy_permits_is_model.
+Qed.
+
+(* request.has_permission: with a security policy the answer is the first-match decision for the principals the
+   authentication policy reports, over the context given or else the request's own; without one, Allowed *)
+Theorem has_permission_first_match R given ctx ps p :
+  has_policy R = true ->
+  hp_granted (gen_has_permission R given ctx ps p)
+  = spec_granted (match given with None => ctx | Some L => L end) ps p.
+Proof.
+  intros HR. rewrite gen_has_permission_is_model. unfold has_permission, hp_granted, legacy_permits. rewrite HR.
+  apply permits_first_match.
+Qed.
+
+Theorem has_permission_default_context R ctx ps p :
+  gen_has_permission R None ctx ps p = gen_has_permission R (Some ctx) ctx ps p.
+Proof. rewrite !gen_has_permission_is_model. reflexivity. Qed.
+
+Theorem has_permission_without_policy R given ctx ps p :
+  has_policy R = false -> gen_has_permission R given ctx ps p = NoPolicyAllowed.
+Proof. intros HR. rewrite gen_has_permission_is_model. unfold has_permission. rewrite HR. reflexivity. Qed.
+
+(* "granted iff the first matching ACE ... is an Allow" *)
+Lemma spec_granted_iff_first_allow L ps p :
+  spec_granted L ps p = true <-> exists e, first_match L ps p = Some e /\ act e = Allow.
+Proof.
+  unfold spec_granted. destruct (first_match L ps p) as [e|].
+  - destruct (act e) eqn:E; split; try discriminate; eauto; intros (e' & H & H'); inversion H; subst; congruence.
+  - split; [discriminate|]. intros (e & H & _). discriminate.
+Qed.
+
+Theorem sec_principals_allowed_consistent R L p q :
+  has_policy R = true -> has_authz R = true -> wf_lineage L = true ->
+  In q (gen_sec_principals_allowed R L p) ->
+  hp_granted (gen_has_permission R None L [q; everyone] p) = true.
+Proof.
+  intros HR HA Hwf Hq. rewrite (has_permission_first_match R None L _ p HR). rewrite <- permits_first_match.
+  rewrite gen_sec_principals_allowed_is_model in Hq. unfold sec_principals_allowed in Hq. rewrite HA in Hq.
   apply allowed_consistent; assumption.
 Qed.
 
-Theorem sec_principals_allowed_without_policy L p : sec_principals_allowed false L p = [everyone].
-Proof. reflexivity. Qed.
+Theorem sec_principals_allowed_without_policy R L p :
+  has_authz R = false -> gen_sec_principals_allowed R L p = [everyone].
+Proof. intros HA. rewrite gen_sec_principals_allowed_is_model. unfold sec_principals_allowed. rewrite HA. reflexivity. Qed.
+
+(* view_execution_permitted: whenever it takes an ACL decision, it is the first-match decision for the permission of
+   the view that would run (the single secured view, or the MultiView's first sub-view whose predicates hold); a view
+   without permission is permitted; no view / no matching sub-view raises *)
+Theorem view_execution_permitted_spec R L ps :
+  match vep_permission R with
+  | Some q => vep_granted (gen_view_execution_permitted R L ps) = Some (spec_granted L ps q)
+  | None => forall d, gen_view_execution_permitted R L ps <> VDecision d
+  end.
+Proof.
+  rewrite gen_view_execution_permitted_is_model. unfold view_execution_permitted, vep_permission.
+  destruct (secured_view R) as [[q|subs]|]; simpl.
+  - unfold legacy_permits. rewrite permits_first_match. reflexivity.
+  - destruct (find (fun s : bool * option text => fst s) subs) as [[b [q|]]|]; simpl; try discriminate.
+    unfold legacy_permits. rewrite permits_first_match. reflexivity.
+  - destruct (plain_view R); discriminate.
+Qed.
+
+(* ---------- malformed inputs: permits() decides by the first match over the well-formed part before the first malformed
+   item; if nothing there matches and there is a malformed item it RAISES -- it never grants (or refuses) past it *)
+Lemma xscan_acl_trunc ps p a : forall i,
+  xscan_acl ps p a i =
+  match scan_acl ps p (fst (trunc_acl a)) i with
+  | Some (b, j) => XHit b j
+  | None => if snd (trunc_acl a) then XRaise else XNoMatch
+  end.
+Proof.
+  induction a as [|[e|] r IH]; intros i; simpl; try reflexivity.
+  destruct (trunc_acl r) as [t b] eqn:E. simpl in *. destruct (ace_matches ps p e); [reflexivity|]. apply IH.
+Qed.
+
+Theorem permits_x_trunc L ps p : forall d,
+  permits_x_from d L ps p =
+  match permits_from d (fst (trunc L)) ps p with
+  | DefaultDeny => if snd (trunc L) then XRaised else XDec DefaultDeny
+  | dd => XDec dd
+  end.
+Proof.
+  induction L as [|[| |a] r IH]; intros d; simpl; try reflexivity.
+  - rewrite IH. destruct (trunc r) as [t b]. reflexivity.
+  - rewrite xscan_acl_trunc. destruct (trunc_acl a) as [ta ba] eqn:Ea. simpl.
+    destruct ba; simpl.
+    + destruct (scan_acl ps p ta 0) as [[[|] j]|]; reflexivity.
+    + destruct (trunc r) as [t b] eqn:Er. simpl in *.
+      destruct (scan_acl ps p ta 0) as [[[|] j]|]; try reflexivity. apply IH.
+Qed.
+
+(* on well-formed input the extension is the model *)
+Fixpoint embed (L : lineage) : list xloc :=
+  match L with [] => [] | None :: r => XNoAttr :: embed r | Some a :: r => XAcl (map XGood a) :: embed r end.
+
+Lemma trunc_acl_embed a : trunc_acl (map XGood a) = (a, false).
+Proof. induction a as [|e r IH]; simpl; [reflexivity|]. rewrite IH. reflexivity. Qed.
+
+Lemma trunc_embed L : trunc (embed L) = (L, false).
+Proof.
+  induction L as [|[a|] r IH]; simpl; [reflexivity| |rewrite IH; reflexivity].
+  rewrite trunc_acl_embed, IH. reflexivity.
+Qed.
+
+Theorem permits_x_conservative L ps p : permits_x (embed L) ps p = XDec (permits L ps p).
+Proof.
+  unfold permits_x, permits. rewrite permits_x_trunc, trunc_embed. simpl.
+  destruct (permits_from 0 L ps p); reflexivity.
+Qed.
+
+(* a grant is always the first-match grant over the well-formed part: a malformed item never produces access *)
+Theorem permits_x_grant_is_first_match L ps p d :
+  permits_x L ps p = XDec d -> granted d = true -> spec_granted (fst (trunc L)) ps p = true.
+Proof.
+  unfold permits_x. rewrite permits_x_trunc. intros H G.
+  rewrite <- permits_first_match. unfold permits.
+  destruct (permits_from 0 (fst (trunc L)) ps p) as [d' i|d' i|]; try (inversion H; subst; exact G).
+  destruct (snd (trunc L)); inversion H; subst; discriminate.
+Qed.
+
+Example permits_x_nonvacuous :
+  let a := [97]%N in let v := [118]%N in
+  permits_x [XAcl [XGood (mkAce Allow a (PStr v)); XBad]; XAclNone] [a] v = XDec (Allowed 0 0)
+  /\ permits_x [XAcl [XBad; XGood (mkAce Allow a (PStr v))]] [a] v = XRaised
+  /\ permits_x [XNoAttr; XAclNone; XAcl [XGood (mkAce Allow a (PStr v))]] [a] v = XRaised.
+Proof. vm_compute. repeat split. Qed.
 
 Example c11_exact_nonvacuous :
   let alice := [97; 108]%N in let view := [118]%N in
